@@ -23,7 +23,7 @@ LEVEL = "exploration"
 RULE = (
     "profiles (easy, verbose, hard, unmaintainable): every 4-tuple of non-negative integers with total <= bound "
     "enumerated once (quick 60, thorough 110) + Hypothesis tuples up to 1e9 + Hypothesis function-length multisets "
-    "through a real Codebase; non-trivial = at least two non-zero categories; distinct = distinct tuple "
+    "through real Codebases (1..4 files at several depths; aggregated once or twice, files added after the aggregation, written and read back); non-trivial = at least two non-zero categories; distinct = distinct tuple "
     "(enumeration has no repetition; generated cases are de-duplicated by digest)"
 )
 ASSUMPTIONS = [
